@@ -19,7 +19,7 @@ REPO = os.environ.get("TORCHTT_REPO", "/repo")
 VERIF = os.path.dirname(os.path.dirname(os.path.abspath(__file__)))
 LEAN = os.path.join(VERIF, "lean")
 
-CORE_FIELDS = {"coreT": ["r0", "m", "r1"], "coreM": ["r0", "m", "n", "r1"]}
+CORE_FIELDS = {"coreT": ["r0", "m", "r1"], "coreM": ["r0", "m", "n", "r1"], "conjT": ["r0", "m", "r1"], "conjM": ["r0", "m", "n", "r1"]}
 
 # name: Lean name of the generated def; model: the hand-written kernel; params: Lean binders (in the model's parameter order);
 # operands: (Lean name, kind) in the order of the einsum call's operands
@@ -66,6 +66,32 @@ SITES = {
     ],
 }
 
+_DM = dict(file="torchtt/_dmrg.py", func="dmrg_matvec_python")
+SITES["C11"] += [
+    dict(_DM, name="dmrgW1a", target="W1", occ=0, model="TT.Kern.dmrgW1a", params="(cj : α → α) (PL : Phi3 α) (x1 : Core α)", app="cj PL x1",
+         operands=[("PL", "phi3"), ("x1", "conjT")], prio=["x1"]),
+    dict(_DM, name="dmrgW1b", target="W1", occ=1, model="TT.Kern.dmrgW1b", params="(cj : α → α) (PL : Phi3 α) (A1 x1 : Core α)", app="cj PL A1 x1",
+         operands=[("A1", "conjM"), ("(gen_dmrgW1a cj PL x1)", "arr4")], prio=["A1"]),
+    dict(_DM, name="dmrgW2a", target="W2", occ=0, model="TT.Kern.dmrgW2a", params="(cj : α → α) (PR : Phi3 α) (x2 : Core α)", app="cj PR x2",
+         operands=[("PR", "phi3"), ("x2", "conjT")], prio=["x2"]),
+    dict(_DM, name="dmrgW2b", target="W2", occ=1, model="TT.Kern.dmrgW2b", params="(cj : α → α) (PR : Phi3 α) (A2 x2 : Core α)", app="cj PR A2 x2",
+         operands=[("A2", "conjM"), ("(gen_dmrgW2a cj PR x2)", "arr4")], prio=["A2"]),
+    dict(_DM, name="dmrgWc", target="W", occ=0, model="TT.Kern.dmrgWc", params="(cj : α → α) (PL PR : Phi3 α) (A1 x1 A2 x2 : Core α)", app="cj PL PR A1 x1 A2 x2",
+         operands=[("(gen_dmrgW1b cj PL A1 x1)", "arr4"), ("(gen_dmrgW2b cj PR A2 x2)", "arr4")], prio=[], dims={"k": "A1.r1", "l": "x1.r1"}),
+    dict(_DM, name="dmrgBckA", target="Phi", occ=0, model="TT.Kern.dmrgBckA", params="(cj : α → α) (P : Phi3 α) (x : Core α)", app="cj P x",
+         operands=[("P", "phi3"), ("x", "conjT")], prio=["x"]),
+    dict(_DM, name="dmrgBckB", target="Phi", occ=1, model="TT.Kern.dmrgBckB", params="(cj : α → α) (P : Phi3 α) (A x : Core α)", app="cj P A x",
+         operands=[("A", "conjM"), ("(gen_dmrgBckA cj P x)", "arr4")], prio=["A"]),
+    dict(_DM, name="dmrgBckC", target="Phi", occ=2, model="TT.Kern.dmrgBckC", params="(cj : α → α) (P : Phi3 α) (y A x : Core α)", app="cj P y A x",
+         operands=[("(gen_dmrgBckB cj P A x)", "arr4"), ("y", "coreT")], prio=["y"], dims={"j": "A.m"}),
+    dict(_DM, name="dmrgFwdA", target="Phi_next", occ=0, model="TT.Kern.dmrgFwdA", params="(cj : α → α) (P : Phi3 α) (x : Core α)", app="cj P x",
+         operands=[("P", "phi3"), ("x", "conjT")], prio=["x"]),
+    dict(_DM, name="dmrgFwdB", target="Phi_next", occ=1, model="TT.Kern.dmrgFwdB", params="(cj : α → α) (P : Phi3 α) (A x : Core α)", app="cj P A x",
+         operands=[("(gen_dmrgFwdA cj P x)", "arr4"), ("A", "conjM")], prio=["A"]),
+    dict(_DM, name="dmrgFwdC", target="Phi_next", occ=2, model="TT.Kern.dmrgFwdC", params="(cj : α → α) (P : Phi3 α) (y A x : Core α)", app="cj P y A x",
+         operands=[("y", "coreT"), ("(gen_dmrgFwdB cj P A x)", "arr4")], prio=["y"], dims={"j": "A.m"}),
+]
+
 
 class SiteError(Exception):
     pass
@@ -107,7 +133,7 @@ def translate(site, subs):
     if len(ops) != len(site["operands"]):
         raise SiteError("%s: %d operands in the source, %d expected" % (site["name"], len(ops), len(site["operands"])))
     for (nm, kind), letters in zip(site["operands"], ops):
-        want = {"phi3": 3, "phi2": 2, "coreT": 3, "coreM": 4}[kind]
+        want = {"phi3": 3, "phi2": 2, "coreT": 3, "coreM": 4, "conjT": 3, "conjM": 4, "arr4": 4}[kind]
         if len(letters) != want or len(set(letters)) != len(letters):
             raise SiteError("%s: operand %s (%s) has subscripts %r" % (site["name"], nm, kind, letters))
     summed = []
@@ -133,8 +159,12 @@ def translate(site, subs):
     facs = []
     for (nm, kind), letters in zip(site["operands"], ops):
         ix = [v(ch) for ch in letters]
-        if kind in ("phi3", "phi2"):
+        if kind in ("phi3", "phi2", "arr4"):
             facs.append("%s %s" % (nm, " ".join(ix)))
+        elif kind == "conjT":
+            facs.append("cj (%s.get %s %s 0 %s)" % (nm, ix[0], ix[1], ix[2]))
+        elif kind == "conjM":
+            facs.append("cj (%s.get %s)" % (nm, " ".join(ix)))
         elif kind == "coreT":
             facs.append("%s.get %s %s 0 %s" % (nm, ix[0], ix[1], ix[2]))
         else:
@@ -155,9 +185,8 @@ def generate(prop):
         except (SiteError, OSError, SyntaxError) as e:
             errs.append((site["name"], str(e)))
             continue
-        names = " ".join(n for n, _ in sorted(site["operands"], key=lambda o: site["params"].index(o[0] + " ") if (o[0] + " ") in site["params"] else site["params"].index(o[0])))
         pnames = re.findall(r"\(([^:]+):", site["params"])
-        app = " ".join(" ".join(p.split()) for p in pnames)
+        app = site.get("app") or " ".join(" ".join(p.split()) for p in pnames)
         defs.append("/-- %s:%d  `%s = …('%s', %s)` -/\ndef gen_%s %s :=\n  %s\n" % (site["file"], lineno, tname, subs, ", ".join(args), site["name"], site["params"], term))
         defs.append("theorem gen_%s_eq %s : gen_%s %s = %s %s := rfl\n" % (site["name"], site["params"], site["name"], app, site["model"], app))
         thms.append(("gen_%s_eq" % site["name"], site, subs, args, lineno))
